@@ -65,8 +65,25 @@ class Ctx:
         self._shared = {}
 
     # -- recording ------------------------------------------------------
+    def only(self, rules):
+        """Context manager: inside it, obligations of rules other than `rules` are not recorded (a property that needs one clause of
+        a larger rule runs the rule and keeps that clause)."""
+        ctx = self
+
+        class _Only:
+            def __enter__(self_):
+                self_.prev = getattr(ctx, "_only", None)
+                ctx._only = set(rules)
+
+            def __exit__(self_, *a):
+                ctx._only = self_.prev
+                return False
+        return _Only()
+
     def ob(self, rule, func, node, construct, goal, status, detail="", proof="", facts=()):
         """func: model.Func | (file, name) ; node: ast node or line."""
+        if getattr(self, "_only", None) is not None and rule not in self._only:
+            return None
         if hasattr(func, "key"):
             file, fname = func.file, func.qualname
             self.analysed_funcs.add(func.key)
